@@ -794,7 +794,7 @@ func hintClass(h string, t *Tok) string {
 // Advance moves the virtual clock.
 func (s *Sim) Advance(d time.Duration) {
 	s.log("advance %s", d)
-	time.Sleep(d)
+	world.Sleep(d)
 }
 
 // Password runs the resource-owner password grant.
